@@ -123,6 +123,12 @@ void EPollPoller::updateChannel(Channel* channel)
     {
       assert(channels_.find(fd) != channels_.end());
       assert(channels_[fd] == channel);
+      if (channel->isNoneEvent())
+      {
+        // still nothing to watch: adding it with an empty mask would make
+        // the kernel report hang-up and error for a channel without interest
+        return;
+      }
     }
 
     channel->set_index(kAdded);
